@@ -25,6 +25,9 @@ func (p *Puback) String() string {
 // NewPubackPacket returns a Puback instance by the given FixHeader and io.Reader
 func NewPubackPacket(fh *FixHeader, version Version, r io.Reader) (*Puback, error) {
 	p := &Puback{FixHeader: fh, Version: version}
+	if fh.Flags != FlagReserved { //[MQTT-2.2.2-2]
+		return nil, codes.ErrMalformed
+	}
 	err := p.Unpack(r)
 	if err != nil {
 		return nil, err
